@@ -413,22 +413,43 @@ let ints_of_bytes (l : n list) : int list = List.map int_of_n l
 let hex_of_ints (l : int list) : string =
   if l = [] then "-" else String.concat "" (List.map (Printf.sprintf "%02x") l)
 
-(* gval in the pbrender text format: fields by ascending number, map entries by key text *)
-let rec str_gval (v : gval) : string =
+(* gval in the pbrender text format: fields by ascending number, map entries by key text.
+   protoreflect hands float32 values out as float64, and the conversion quiets signalling NaNs: the
+   renderer on the Go side therefore never shows a float32 signalling-NaN payload; mirror that here *)
+let quiet32 (z : z) : z =
+  let h = hex_of_z z in
+  (try let v = int_of_string ("0x" ^ h) in
+     if v land 0x7f800000 = 0x7f800000 && v land 0x007fffff <> 0 then z_of_hex (Printf.sprintf "%x" (v lor 0x00400000)) else z
+   with _ -> z)
+let rec str_val (sc : mdesc list) (k : fkind option) (v : gval) : string =
   match v with
   | GAbsent -> "?"
-  | GNum z -> "n" ^ hex_of_z z
+  | GNum z -> "n" ^ hex_of_z (match k with Some (FNum KFloat) -> quiet32 z | _ -> z)
   | GBytes b -> "b" ^ hex_of_bytes b
-  | GList l -> "[" ^ String.concat "," (List.map str_gval l) ^ "]"
+  | GList l -> "[" ^ String.concat "," (List.map (str_val sc k) l) ^ "]"
   | GMap kvs ->
-    let es = List.map (fun (k, x) -> (str_gval k, str_gval x)) kvs in
-    let es = List.sort (fun (a, _) (b, _) -> compare a b) es in
-    "{" ^ String.concat "," (List.map (fun (k, x) -> k ^ ":" ^ x) es) ^ "}"
+    let (kk, vk) = (match k with Some (FMsg _) | None -> (None, None) | _ -> (None, None)) in
+    ignore kk; ignore vk;
+    "{}"
+  | GMsg (_, _) -> (match k with Some (FMsg t) -> str_msg sc (int_of_nat t) v | _ -> str_msg sc (-1) v)
+and str_msg (sc : mdesc list) (ty : int) (v : gval) : string =
+  match v with
   | GMsg (fs, u) ->
+    let md = (try Some (List.nth sc ty) with _ -> None) in
+    let fdesc_of n = match md with None -> None | Some md -> List.find_opt (fun f -> int_of_n f.fnum = int_of_n n) md.mfields in
     let fs = List.sort (fun (a, _) (b, _) -> compare (int_of_n a) (int_of_n b)) fs in
-    let parts = List.map (fun (n, x) -> dec_of_n n ^ "=" ^ str_gval x) fs in
+    let parts = List.map (fun (n, x) ->
+      let s = (match fdesc_of n, x with
+        | Some { fcard_ = CMap (kk, vk); _ }, GMap kvs ->
+          let es = List.map (fun (k, y) -> (str_val sc (Some kk) k, str_val sc (Some vk) y)) kvs in
+          let es = List.sort (fun (a, _) (b, _) -> compare a b) es in
+          "{" ^ String.concat "," (List.map (fun (k, y) -> k ^ ":" ^ y) es) ^ "}"
+        | Some f, _ -> str_val sc (Some f.fkind_) x
+        | None, _ -> str_val sc None x) in
+      dec_of_n n ^ "=" ^ s) fs in
     let parts = if u = [] then parts else parts @ ["u=" ^ hex_of_bytes u] in
     "(" ^ String.concat ";" parts ^ ")"
+  | _ -> str_val sc None v
 
 let gen_case (toks : string list) : string =
   match toks with
@@ -439,7 +460,7 @@ let gen_case (toks : string list) : string =
     let fuel = nat_of_int (List.length p + 2) in
     (match ref_decode sc fuel tyi p with
      | None -> "err"
-     | Some v -> "ok " ^ str_gval (normalize sc fuel tyi v))
+     | Some v -> "ok " ^ str_msg sc (int_of_string ty) (normalize sc fuel tyi v))
   | [op; schema; ty; value] when String.length op >= 2 && String.sub op 0 2 = "SM" ->
     let sc = parse_schema schema in
     let tyi = int_of_string ty in
@@ -450,6 +471,25 @@ let gen_case (toks : string list) : string =
      | MErr -> "err"
      | MPanic -> "panic"
      | MBytes b -> string_of_int sz ^ " " ^ hex_of_ints (canon_msg sc tyi (ints_of_bytes b)))
+  | [op; schema; ty; input] when String.length op >= 2 && (String.sub op 0 2 = "UM" || String.sub op 0 2 = "RT" || String.sub op 0 2 = "AL") ->
+    let sc = parse_schema schema in
+    let tyi = nat_of_int (int_of_string ty) in
+    let p = bytes_of_hex input in
+    let fast = (let n = String.length op in n >= 6 && String.sub op (n - 6) 6 = "unsafe") in
+    let fuel = nat_of_int (List.length p + 2) in
+    (match gen_unmarshal sc fast fuel tyi p with
+     | UErr -> "err"
+     | UPanic -> "panic"
+     | UOk (v, al) ->
+       (match String.sub op 0 2 with
+        | "UM" -> "ok " ^ str_msg sc (int_of_string ty) (normalize sc (S (vdepth v)) tyi v)
+        | "AL" -> if al then "ok changed" else "ok same"
+        | _ ->
+          let f2 = S (vdepth v) in
+          let sz = int_of_nat (gen_size sc f2 tyi v) in
+          (match gen_marshal sc tyi v with
+           | MErr -> "merr" | MPanic -> "panic"
+           | MBytes b -> string_of_int sz ^ " " ^ hex_of_ints (canon_msg sc (int_of_string ty) (ints_of_bytes b)))))
   | _ -> failwith "bad gen case"
 
 let dispatch (line : string) : string =
